@@ -24,6 +24,7 @@ class StackFrame:
 class LoopFrame(StackFrame):
     def __init__(self, parent):
         super().__init__(parent)
+        self.params = parent.params
         self._loop_var = {}
 
     def get_loop_var(self, index):
